@@ -1,7 +1,32 @@
 import MidnightZK.Model.C02.RowSat
+import MidnightZK.Model.C02.Identities
+import MidnightZK.Model.C02.Label
+import MidnightZK.Gen.C02Consts
 import MidnightZK.Proofs.C02.Combination
+import MidnightZK.Proofs.C02.MultisetPoly
+import MidnightZK.Proofs.C02.PermSound
+import MidnightZK.Proofs.C02.LookupSound
+import MidnightZK.Proofs.C02.IdsCover
+import MidnightZK.Proofs.C02.GateRows
+import MidnightZK.Proofs.C02.RowLevel
+import MidnightZK.Proofs.C02.Bridge
 /-!
 # C02 — the verifier enforces every constraint class; agrees with the mock checker
+
+Three groups of theorems.
+
+1. The development-time checker computes row-level satisfaction (`mock_agrees` …).
+2. The identity list of the real verifier (`Model/C02/Identities.lean`, tied to the code value by
+   value on every run) covers every constraint class exactly once, in the order of the Rust code
+   (`ids_cover`), and each class means, read row by row, what the row-level semantics says
+   (`gate_identity_rows`, `perm_argument_sound`, `lookup_argument_sound`,
+   `lookup_argument_sound_tuples`, `trash_argument_sound`).
+3. The verifier's single equation at random `x`, `y` forces every identity polynomial to vanish
+   on the domain (`y_combination_sound`, `x_evaluation_sound`, `verifier_equation_sound`).
+
+Not proved (named in `checks/c02.py`): that the evaluations read from the proof are evaluations
+of the committed polynomials (KZG binding, C14) and that the challenges are random (Fiat–Shamir
+in the random-oracle model).
 -/
 namespace MidnightZK.C02
 
@@ -81,5 +106,403 @@ theorem y_combination_sound {F : Type} [Field F] (vs : List F) (ys : Finset F)
 /-- Non-vacuity: the hypotheses are satisfiable with a non-empty list (all-zero identities). -/
 example : ∀ y ∈ ({0, 1} : Finset ℚ), foldY [0, 0] y = 0 := by
   intro y _; simp [foldY]
+
+
+/-! ## the identity list of the real verifier -/
+
+open Ids in
+/-- **Every constraint class exactly once, in the order of the Rust code.** For every
+constraint system (any gates, lookups, trash arguments, permutation columns, query lists, degree
+`≥ 3` — `ConstraintSystem::degree()` is at least `permutation.required_degree() = 3`), every
+challenge and every evaluation vector with one `Evaluated` per column set / lookup / trash
+argument (which the reading code guarantees, `labelled_evals_shaped`), the class tags of the
+identity list `evaluate_identities` hands to `PartiallyEvaluated::verify` for one proof are
+exactly: every polynomial of every gate; `permFirst`, `permLast` (iff there is a permutation
+column), `permChain s` for `1 ≤ s < sets`, `permProduct s` for `s < sets`,
+`sets = ⌈#permutation columns / (degree − 2)⌉`; the five rules of every lookup; one rule per
+trash argument — in this order, and no class occurs twice. A verifier that drops, duplicates or
+reorders a rule no longer matches `Model/C02/Identities.lean`, which the correspondence run
+compares with the hooked identity log value by value. -/
+theorem ids_cover (f : Fld) (cs : VCS) (com : CommonEvals) (L : Lagrange) (ch : Challenges)
+    (ev : ProofEvals) (hdeg : 3 ≤ cs.degree) (hs : Shaped cs com ev) :
+    (proofIds f cs com L ch ev).map Prod.fst = expectedClasses (shapeOf cs) ∧
+      ((proofIds f cs com L ch ev).map Prod.fst).Nodup := by
+  have h := proofIds_classes f cs com L ch ev hdeg hs
+  exact ⟨h, h ▸ expectedClasses_nodup _⟩
+
+/-- The hypothesis `Shaped` of `ids_cover` holds for the evaluations the model rebuilds from the
+labelled transcript (`Model/C02/Label.lean`, mirroring `permutation::verifier::Committed::evaluate`,
+`lookup::verifier::Committed::evaluate`, `trash::verifier::Committed::evaluate`,
+`VerifyingKey::evaluate`), for every constraint system, every stream and every proof index. -/
+theorem labelled_evals_shaped (f : Ids.Fld) (cs : Ids.VCS) (nCommitted : Nat)
+    (get : MidnightZK.C01.Tag → Nat) (x xn maxLen : Nat) (plain : List (List Nat)) (pi : Nat) :
+    Ids.Shaped cs (Label.commonEvalsOfTags cs get)
+      (Label.proofEvalsOfTags f cs nCommitted get x xn maxLen plain pi) :=
+  Ids.labelled_evals_shaped_aux f cs nCommitted get x xn maxLen plain pi
+
+/-- A constraint system with two gates (2 + 1 polynomials), 3 permutation columns at degree 4
+(chunks of 2 columns: 2 sets), 1 lookup, 1 trash argument. -/
+def coverCS : Ids.VCS :=
+  { gates := [[.advice 0 0, .advice 1 0], [.fixed 0 0]],
+    lookups := [([.advice 0 0], [.fixed 0 0])], trash := [(.fixed 0 0, [.advice 1 0])],
+    permCols := [(.advice, 0), (.advice, 1), (.fixed, 0)],
+    adviceQueries := [(0, 0), (1, 0)], fixedQueries := [(0, 0)], instanceQueries := [],
+    degree := 4, blinding := 3, k := 3 }
+
+/-- Non-vacuity of `ids_cover` and a concrete reading of the order: on `coverCS` with
+evaluations rebuilt from an (all-zero) labelled stream the tags are the 14 listed ones. -/
+example : (Ids.proofIds ⟨17, 3, 2, 1⟩ coverCS (Label.commonEvalsOfTags coverCS fun _ => 0) ⟨1, 2, 3⟩
+      ⟨1, 2, 3, 4, 5, 6, []⟩ (Label.proofEvalsOfTags ⟨17, 3, 2, 1⟩ coverCS 0 (fun _ => 0) 1 1 0 [] 0)).map Prod.fst =
+    [.gate 0 0, .gate 0 1, .gate 1 0, .permFirst, .permLast, .permChain 1, .permProduct 0,
+     .permProduct 1, .lookup 0 1, .lookup 0 2, .lookup 0 3, .lookup 0 4, .lookup 0 5, .trash 0] := by
+  decide
+
+/-- No permutation column: no permutation identity at all. -/
+example : Ids.expectedClasses ⟨[1], 0, 3, 0, 0⟩ = [.gate 0 0] := by decide
+
+/-- **A gate identity read on the rows is the gate polynomial on the rows.** For every
+constraint system, every assignment table and every gate polynomial whose leaves are registered
+queries with field-element cells on the rows `i < n`: the identity values of ALL gates
+(`Ids.gateIds`, the first section of the verifier's list) computed from the evaluation vectors of
+row `i` (`Ids.rowEnv`: the value at `ω^i` of a Lagrange-form polynomial is its `i`-th entry)
+vanish on every row iff every gate polynomial evaluates to zero on every row in the sense of
+`RowSat.lean` (`gatesOK`, what `MockProver` checks). The query-index plumbing
+(`fixed_evals[query.index]` ↔ `(column, rotation)`) and the arithmetic agree. -/
+theorem gate_identity_rows (cs : Ids.VCS) (t : Table)
+    (h : ∀ g ∈ cs.gates.flatten, ∀ i < t.n, Ids.LeavesOK cs t i g) :
+    (∀ i < t.n, ∀ cv ∈ Ids.gateIds (Ids.rowEnv cs t i), cv.2 = 0) ↔
+      (∀ g ∈ cs.gates.flatten, ∀ i < t.n, isZero (g.eval t i) = true) := by
+  have key : ∀ i < t.n, (∀ cv ∈ Ids.gateIds (Ids.rowEnv cs t i), cv.2 = 0) ↔
+      ∀ g ∈ cs.gates.flatten, isZero (g.eval t i) = true := by
+    intro i hi
+    have hv := Ids.gateIds_values (Ids.rowEnv cs t i)
+    constructor
+    · intro hz g hg
+      rw [Ids.eval_eq_evalQ cs t i g (h g hg i hi), Ids.isZero_real]
+      have : Ids.evalQ (Ids.rowEnv cs t i) g ∈ (Ids.gateIds (Ids.rowEnv cs t i)).map Prod.snd := by
+        rw [hv]; exact List.mem_map.mpr ⟨g, hg, rfl⟩
+      obtain ⟨cv, hcv, hcv2⟩ := List.mem_map.mp this
+      rw [← hcv2]; exact hz cv hcv
+    · intro hz cv hcv
+      have : cv.2 ∈ (Ids.gateIds (Ids.rowEnv cs t i)).map Prod.snd := List.mem_map.mpr ⟨cv, hcv, rfl⟩
+      rw [hv] at this
+      obtain ⟨g, hg, hg2⟩ := List.mem_map.mp this
+      have := hz g hg
+      rw [Ids.eval_eq_evalQ cs t i g (h g hg i hi), Ids.isZero_real] at this
+      rw [← hg2]; exact this
+  constructor
+  · intro hz g hg i hi; exact (key i hi).mp (hz i hi) g hg
+  · intro hz i hi; exact (key i hi).mpr (fun g hg => hz g hg i hi)
+
+/-- One gate `a0·a1 − a2` over three advice columns. -/
+def gateCS : Ids.VCS :=
+  { coverCS with
+    gates := [[Expr.sum (Expr.prod (Expr.advice 0 0) (Expr.advice 1 0)) (Expr.neg (Expr.advice 2 0))]]
+    adviceQueries := [(0, 0), (1, 0), (2, 0)] }
+
+def gateTable : Table :=
+  { p := 17, n := 2, fixed := [], advice := [[.real 2, .real 3], [.real 5, .real 4], [.real 10, .real 12]],
+    inst := [], challenges := [] }
+
+/-- Non-vacuity of `gate_identity_rows`: the gate `a0·a1 − a2` on a 2-row table over `F_17`
+(both sides of the equivalence hold: `2·5 = 10`, `3·4 = 12`). -/
+example : (∀ g ∈ gateCS.gates.flatten, ∀ i < gateTable.n, Ids.LeavesOK gateCS gateTable i g) ∧
+    (∀ i < gateTable.n, ∀ cv ∈ Ids.gateIds (Ids.rowEnv gateCS gateTable i), cv.2 = 0) := by
+  constructor
+  · intro g hg i hi
+    simp only [gateCS, List.flatten_cons, List.flatten_nil, List.append_nil, List.mem_singleton] at hg
+    subst hg
+    have : i = 0 ∨ i = 1 := by simp only [gateTable] at hi; omega
+    rcases this with rfl | rfl <;> simp [Ids.LeavesOK, cell, gateCS, gateTable, coverCS]
+  · intro i hi
+    have : i = 0 ∨ i = 1 := by simp only [gateTable] at hi; omega
+    rcases this with rfl | rfl <;> decide
+
+section Field
+open MidnightZK.C01.Args Polynomial
+variable {F : Type} [Field F]
+
+/-- **Permutation argument, rows ⇒ rules.** If every value of `permExpressionsRow`
+(`Model/C01/Arguments.lean`: `permutation.rs: expressions` read on row `i`, List-based) is zero
+on every row `i < n`, then the four rule families of `PermSound.lean` hold for the running
+products `zOf zs`, the cell values `vOf cols`, the σ labels `sigmaOf cols` and the identity
+labels `δ^c·ω^i` — hence (`perm_rules_imply_product_eq'`) the grand-product equality. -/
+theorem perm_grand_product_eq (L n bf : ℕ) (hL : 0 < L) (hn : 0 < n) (β γ δ ω : F)
+    (cols : List (List F × List F)) (zs : List (List F)) (hm : 0 < cols.length)
+    (hS : zs.length = numSets cols.length L)
+    (h : ∀ i < n, ∀ x ∈ permExpressionsRow L n bf β γ δ ω cols zs i, x = 0) :
+    zOf zs (numSets cols.length L - 1) (n - (bf + 1)) *
+        ∏ c ∈ Finset.range cols.length, ∏ i ∈ Finset.range (n - (bf + 1)),
+          (vOf cols c i + β * sigmaOf cols c i + γ) =
+      ∏ c ∈ Finset.range cols.length, ∏ i ∈ Finset.range (n - (bf + 1)),
+        (vOf cols c i + β * idlOf δ ω c i + γ) ∧
+      (zOf zs (numSets cols.length L - 1) (n - (bf + 1)) = 0 ∨
+        zOf zs (numSets cols.length L - 1) (n - (bf + 1)) = 1) := by
+  have rules := perm_rows_imply_rules L n bf hL hn β γ δ ω cols zs hm hS h
+  rw [hS] at rules
+  exact perm_rules_imply_product_eq' cols.length L (n - (bf + 1)) hm hL _ _ _ _ β γ rules
+
+/-- **Soundness of the permutation argument, counting form.** `cols` = for every permutation
+column its values and its σ-label values (both fixed before `β, γ` are drawn), `chunk_len = L ≥ 1`,
+`u = n − (blinding_factors + 1)` usable rows, `N = #columns · u` usable cells. Assume the
+identity labels `δ^c·ω^i` are pairwise distinct on the usable cells and the σ labels are the
+identity labels permuted by a permutation `π` of the usable cells (what
+`permutation/keygen.rs` builds from the copy constraints). Then there is a set `Bad` of at most
+`(2N)²` values of `β` such that for every other `β`: if for MORE THAN `2N` values of `γ` the
+prover can supply running products `zs` (one per column set) making every permutation identity
+vanish on every row, then `v (π k) = v k` for every usable cell `k` — every copy constraint
+holds. Contrapositive: an assignment violating a copy constraint can satisfy the permutation
+identities on the whole domain for at most `(2N)²·|F| + 2N·|F|` of the `|F|²` challenge pairs.
+What remains outside this theorem: that the identities hold on the whole domain follows from the
+verifier's equation by `verifier_equation_sound`; that the evaluations are those of committed
+polynomials and that `β, γ` are random is the cryptographic part. -/
+theorem perm_argument_sound (L n bf : ℕ) (hL : 0 < L) (hn : 0 < n) (δ ω : F)
+    (cols : List (List F × List F)) (hm : 0 < cols.length)
+    (π : Equiv.Perm (Fin cols.length × Fin (n - (bf + 1))))
+    (hid : Function.Injective fun k : Fin cols.length × Fin (n - (bf + 1)) => idlOf δ ω k.1 k.2)
+    (hσ : ∀ k : Fin cols.length × Fin (n - (bf + 1)), sigmaOf cols k.1 k.2 = idlOf δ ω (π k).1 (π k).2) :
+    ∃ Bad : Finset F, Bad.card ≤ (2 * (cols.length * (n - (bf + 1)))) ^ 2 ∧
+      ∀ β, β ∉ Bad → ∀ Γ : Finset F, 2 * (cols.length * (n - (bf + 1))) < Γ.card →
+        (∀ γ ∈ Γ, ∃ zs : List (List F), zs.length = numSets cols.length L ∧
+          ∀ i < n, ∀ x ∈ permExpressionsRow L n bf β γ δ ω cols zs i, x = 0) →
+        ∀ k : Fin cols.length × Fin (n - (bf + 1)), vOf cols (π k).1 (π k).2 = vOf cols k.1 k.2 :=
+  perm_argument_sound_count L n bf hL hn δ ω cols hm π hid hσ
+
+/-- Non-vacuity of `perm_argument_sound` / `perm_grand_product_eq`: one column, `n = 2`, one
+usable cell with value `5` and label `1 = δ⁰ω⁰` mapped to itself; for EVERY `β, γ` the constant
+running product satisfies every rule on both rows (so the inner hypothesis is satisfiable for
+any number of challenges), and the outer hypotheses hold. -/
+example : (∀ β γ : ℚ, ∃ zs : List (List ℚ), zs.length = numSets 1 1 ∧
+      ∀ i < 2, ∀ x ∈ permExpressionsRow 1 2 0 β γ (2 : ℚ) 3 [([5, 0], [1, 0])] zs i, x = 0) ∧
+    Function.Injective (fun k : Fin 1 × Fin (2 - (0 + 1)) => idlOf (2 : ℚ) 3 k.1 k.2) ∧
+    ∀ k : Fin 1 × Fin (2 - (0 + 1)), sigmaOf [(([5, 0], [1, 0]) : List ℚ × List ℚ)] k.1 k.2 =
+      idlOf (2 : ℚ) 3 ((Equiv.refl _ : Equiv.Perm _) k).1 ((Equiv.refl _ : Equiv.Perm _) k).2 := by
+  refine ⟨fun β γ => ⟨[[1, 1]], by decide, ?_⟩, ?_, ?_⟩
+  · intro i hi
+    have : i = 0 ∨ i = 1 := by omega
+    rcases this with rfl | rfl <;> simp [permExpressionsRow, permLeftRight, chunks, powN]
+  · intro a b _
+    exact Prod.ext (Fin.ext (by omega)) (Fin.ext (by omega))
+  · rintro ⟨⟨a, ha⟩, ⟨b, hb⟩⟩
+    have ha0 : a = 0 := by omega
+    have hb0 : b = 0 := by omega
+    subst ha0 hb0
+    simp [sigmaOf, idlOf]
+
+/-- **Soundness of the lookup argument on compressed values.** `A`, `S` = the θ-compressed input
+and table expressions on the `n` rows, `A'`, `S'` = the permuted columns (all fixed before
+`β, γ`). If for every `(β, γ)` of a grid `B × Γ` with `#B, #Γ > 2u` the prover can supply a
+running product `z` making the five identities of `lookup.rs: Evaluated::expressions` vanish on
+every row, then every compressed input value on a usable row is a compressed table value of a
+usable row. (No side condition on the last product value: the `≤ u` challenges per axis that
+make a grand product vanish are discarded inside the proof.) -/
+theorem lookup_argument_sound (n bf : ℕ) (hn : 0 < n) (A S A' S' : List F) (B Γ : Finset F)
+    (hB : 2 * (n - (bf + 1)) < B.card) (hΓ : 2 * (n - (bf + 1)) < Γ.card)
+    (hrows : ∀ β ∈ B, ∀ γ ∈ Γ, ∃ z : List F,
+      ∀ i < n, ∀ x ∈ lookupExpressionsRow n bf β γ A S A' S' z i, x = 0) :
+    ∀ i < n - (bf + 1), ∃ j < n - (bf + 1), A.getD i 0 = S.getD j 0 :=
+  lookup_argument_sound_rows n bf hn A S A' S' B Γ hB hΓ hrows
+
+/-- Non-vacuity of `lookup_argument_sound`: `n = 3`, `u = 2`, inputs `(2,2)` in the table `(2,3)`;
+for every `β, γ` the constant running product satisfies the five identities on all three rows. -/
+example : ∀ β γ : ℚ, ∃ z : List ℚ, ∀ i < 3,
+    ∀ x ∈ lookupExpressionsRow 3 0 β γ [2, 2, 7] [2, 3, 9] [2, 2, 1] [2, 3, 4] z i, x = 0 := by
+  intro β γ
+  refine ⟨[1, 1, 1], fun i hi => ?_⟩
+  have : i = 0 ∨ i = 1 ∨ i = 2 := by omega
+  rcases this with rfl | rfl | rfl <;> simp [lookupExpressionsRow]
+
+/-- **Soundness of the lookup argument on tuples (θ-compression step included).** `inp`, `tab` =
+value vectors of the input / table expressions of one lookup (`ℓ` of each). If the input tuple of
+a usable row `i₀` is not the table tuple of any usable row, then the challenges `θ` for which
+the prover can still satisfy the five identities on every row for a `(> 2u) × (> 2u)` grid of
+`(β, γ)` number at most `u·(ℓ − 1)`. -/
+theorem lookup_argument_sound_tuples (n bf : ℕ) (hn : 0 < n) (inp tab : List (List F))
+    (hlen : inp.length = tab.length) (i₀ : ℕ) (hi₀ : i₀ < n - (bf + 1))
+    (hnot : ∀ j < n - (bf + 1), (inp.map fun e => e.getD i₀ 0) ≠ tab.map fun e => e.getD j 0)
+    (Θ : Finset F)
+    (h : ∀ θ ∈ Θ, ∃ (A' S' : List F) (B Γ : Finset F), 2 * (n - (bf + 1)) < B.card ∧
+      2 * (n - (bf + 1)) < Γ.card ∧ ∀ β ∈ B, ∀ γ ∈ Γ, ∃ z : List F, ∀ i < n,
+        ∀ x ∈ lookupExpressionsRow n bf β γ (compressCol θ inp n) (compressCol θ tab n) A' S' z i, x = 0) :
+    Θ.card ≤ (n - (bf + 1)) * (inp.length - 1) :=
+  lookup_argument_sound_tuples_aux n bf hn inp tab hlen i₀ hi₀ hnot Θ h
+
+/-- Non-vacuity of `lookup_argument_sound_tuples`: a two-column lookup whose row-0 input tuple
+`(1, 2)` is not in the table `{(2, 1), (2, 1)}`; the hypotheses about the tuples hold (and the
+bound `u·(ℓ−1) = 2` is attained in spirit: `θ = 1` compresses `(1,2)` and `(2,1)` alike). -/
+example : ([[1, 0, 0], [2, 0, 0]] : List (List ℚ)).length = ([[2, 2, 0], [1, 1, 0]] : List (List ℚ)).length ∧
+    ∀ j < 3 - (0 + 1), (([[1, 0, 0], [2, 0, 0]] : List (List ℚ)).map fun e => e.getD 0 0) ≠
+      ([[2, 2, 0], [1, 1, 0]] : List (List ℚ)).map fun e => e.getD j 0 := by
+  refine ⟨rfl, fun j hj => ?_⟩
+  have : j = 0 ∨ j = 1 := by omega
+  rcases this with rfl | rfl <;> simp
+
+/-- **Soundness of the trash argument (additive selectors).** On a row where the selector `q`
+is `1` the identity `compressed − (1 − q)·trash` of `trash.rs: Evaluated::expressions` reads
+`compressed = 0` whatever the prover puts in the trash column. If this holds for at least as
+many trash challenges as there are constraint expressions, every constraint expression is zero
+on that row: an additive-selector constraint violated on an enabled row survives for fewer than
+`#constraint_expressions` values of the trash challenge. (The trash column is committed after
+the challenge; with `q = 1` it does not enter.) -/
+theorem trash_argument_sound (exprs : List (List F)) (q : List F) (i : ℕ) (hq : q.getD i 0 = 1)
+    (Θ : Finset F) (hΘ : exprs.length ≤ Θ.card)
+    (h : ∀ c ∈ Θ, ∃ trash : List F, trashExpressionRow c q exprs trash i = 0) :
+    ∀ e ∈ exprs, e.getD i 0 = 0 :=
+  trash_argument_sound_rows exprs q i hq Θ hΘ h
+
+/-- Non-vacuity of `trash_argument_sound`: two constraint expressions that vanish on row 0 with
+`q = 1`; the identity holds for both challenges `0, 1`. -/
+example : ∀ c ∈ ({0, 1} : Finset ℚ), ∃ trash : List ℚ,
+    trashExpressionRow c [1, 0] [[0, 4], [0, 5]] trash 0 = 0 := by
+  intro c _
+  exact ⟨[0, 0], by simp [trashExpressionRow, compressRow]⟩
+
+/-- **Soundness of evaluating at `x`.** A polynomial of degree at most `d` that vanishes at more
+than `d` points is zero: the verifier's equation, a polynomial identity in `X` of degree below
+`(degree − 1)·n`, holds identically unless `x` is one of at most that many values. -/
+theorem x_evaluation_sound (p : F[X]) (d : ℕ) (hd : p.natDegree ≤ d) (Xs : Finset F)
+    (hX : d < Xs.card) (h : ∀ x ∈ Xs, p.eval x = 0) : p = 0 :=
+  x_evaluation_sound_aux p d hd Xs hX h
+
+/-- Non-vacuity of `x_evaluation_sound` (with a non-zero bound): the zero polynomial, `d = 1`. -/
+example : ((0 : ℚ[X]).natDegree ≤ 1) ∧ 1 < ({0, 1} : Finset ℚ).card ∧
+    ∀ x ∈ ({0, 1} : Finset ℚ), (0 : ℚ[X]).eval x = 0 := by
+  refine ⟨by simp, by decide, fun x _ => by simp⟩
+
+/-- **The verifier's single equation forces every identity to vanish on the domain.** `ids` =
+the identity polynomials (in the order of `ids_cover`), `combinedPoly ids y = Σ y^k·id_k` in the
+Horner order of `PartiallyEvaluated::verify`. If for at least `#ids` values of `y` there is a
+quotient `h` (committed after `y`) such that `combined(x) = h(x)·(xⁿ − 1)` — the equation
+`expected_h_eval = h(x)` the verifier checks through the opening — holds at more points `x` than
+the degree `d` of `combined − h·(Xⁿ − 1)`, then every identity polynomial vanishes at every `n`-th
+root of unity, i.e. on every row of the domain. -/
+theorem verifier_equation_sound (ids : List F[X]) (n d : ℕ) (Y : Finset F) (hY : ids.length ≤ Y.card)
+    (hq : ∀ y ∈ Y, ∃ (h : F[X]) (Xs : Finset F),
+      (combinedPoly ids y - h * (X ^ n - 1)).natDegree ≤ d ∧ d < Xs.card ∧
+      ∀ x ∈ Xs, (combinedPoly ids y).eval x = h.eval x * (x ^ n - 1)) :
+    ∀ w : F, w ^ n = 1 → ∀ p ∈ ids, p.eval w = 0 :=
+  verifier_equation_sound_aux ids n d Y hY hq
+
+/-- Non-vacuity of `verifier_equation_sound`: the single identity `X² − 1` over `ℚ`, `n = 2`,
+quotient `h = 1`. -/
+example : ∀ y ∈ ({0} : Finset ℚ), ∃ (h : ℚ[X]) (Xs : Finset ℚ),
+    (combinedPoly [(X ^ 2 - 1 : ℚ[X])] y - h * (X ^ 2 - 1)).natDegree ≤ 0 ∧ 0 < Xs.card ∧
+    ∀ x ∈ Xs, (combinedPoly [(X ^ 2 - 1 : ℚ[X])] y).eval x = h.eval x * (x ^ 2 - 1) := by
+  intro y _
+  refine ⟨1, {0}, by simp [combinedPoly], by simp, fun x _ => by simp [combinedPoly]⟩
+
+end Field
+
+/-! ## the identity model and the row model state the same rules -/
+
+open MidnightZK.C01.Args in
+/-- **The lookup identities of the identity model are the row rules.** `Model/C02/Identities.lean`
+(validated against the hooked identity log on every run) computes on canonical representatives
+mod `p`; the row-level soundness theorems above speak about `lookupExpressionsRow`
+(`Model/C01/Arguments.lean`) over a field. For every environment, challenge set, lookup argument
+and row `i`: if the five evaluations are the row values of `z, A', S'` (`product_next` at
+`(i+1) mod n`, `permuted_input_inv` at `(i−1) mod n`), the compressed input / table expressions
+are `A[i]`, `S[i]`, and `l_0, l_last, l_blind` are the row indicators, then the five identity
+values cast to `ZMod p` are exactly the list `lookupExpressionsRow … i` — same rules, same order. -/
+theorem lookup_identity_is_row_rule {p : ℕ} [NeZero p] (e : Ids.Env) (hp : e.p = p) (n bf i li : ℕ)
+    (ch : Ids.Challenges) (ev : Ids.LookupEvals) (arg : List Expr × List Expr)
+    (A S A' S' z : List (ZMod p))
+    (hz : (ev.product : ZMod p) = z.getD i 0) (hzn : (ev.productNext : ZMod p) = z.getD ((i + 1) % n) 0)
+    (ha' : (ev.permutedInput : ZMod p) = A'.getD i 0)
+    (hai : (ev.permutedInputInv : ZMod p) = A'.getD ((i + (n - 1)) % n) 0)
+    (hs' : (ev.permutedTable : ZMod p) = S'.getD i 0)
+    (hA : ((Ids.compress e ch.theta arg.1 : ℕ) : ZMod p) = A.getD i 0)
+    (hS : ((Ids.compress e ch.theta arg.2 : ℕ) : ZMod p) = S.getD i 0) :
+    (Ids.lookupIdsOne e (Ids.rowLagrange n bf i) ch li ev arg).map (fun cv => ((cv.2 : ℕ) : ZMod p)) =
+      lookupExpressionsRow n bf (ch.beta : ZMod p) (ch.gamma : ZMod p) A S A' S' z i :=
+  Ids.lookupIds_eq_row e hp n bf i li ch ev arg A S A' S' z hz hzn ha' hai hs' hA hS
+
+open MidnightZK.C01.Args in
+/-- Non-vacuity of `lookup_identity_is_row_rule`: `p = 17`, one input and one table expression
+`a0`, `t0` with evaluations `3`, `3`, running product `1`, row `0` of `n = 4`. -/
+example : ((Ids.compress ⟨17, coverCS, [3], [3, 0], [], []⟩ 5 [Expr.advice 0 0] : ℕ) : ZMod 17) =
+      ([3, 0, 0, 0] : List (ZMod 17)).getD 0 0 ∧
+    ((1 : ℕ) : ZMod 17) = ([1, 1, 1, 1] : List (ZMod 17)).getD ((0 + 1) % 4) 0 := by
+  constructor <;> decide
+
+open MidnightZK.C01.Args in
+/-- **The trash identity of the identity model is the row rule** `trashExpressionRow`, under the
+same reading of the evaluations as row values. -/
+theorem trash_identity_is_row_rule {p : ℕ} [NeZero p] (e : Ids.Env) (hp : e.p = p) (i : ℕ)
+    (ch : Ids.Challenges) (trashEval : ℕ) (arg : Expr × List Expr) (q trash : List (ZMod p))
+    (exprs : List (List (ZMod p)))
+    (hq : ((Ids.evalQ e arg.1 : ℕ) : ZMod p) = q.getD i 0) (ht : (trashEval : ZMod p) = trash.getD i 0)
+    (hc : ((Ids.compress e ch.trash arg.2 : ℕ) : ZMod p) = compressRow (ch.trash : ZMod p) exprs i) :
+    ((Ids.trashIdOne e ch trashEval arg : ℕ) : ZMod p) =
+      trashExpressionRow (ch.trash : ZMod p) q exprs trash i :=
+  Ids.trashId_eq_row e hp i ch trashEval arg q trash exprs hq ht hc
+
+open MidnightZK.C01.Args in
+/-- Non-vacuity of `trash_identity_is_row_rule`: selector `f0 = 1`, constraint `a1 = 0`, `p = 17`. -/
+example : ((Ids.evalQ ⟨17, coverCS, [1], [3, 0], [], []⟩ (Expr.fixed 0 0) : ℕ) : ZMod 17) =
+      ([1, 0] : List (ZMod 17)).getD 0 0 ∧
+    ((Ids.compress ⟨17, coverCS, [1], [3, 0], [], []⟩ 7 [Expr.advice 1 0] : ℕ) : ZMod 17) =
+      compressRow ((7 : ℕ) : ZMod 17) [[0, 2]] 0 := by
+  constructor <;> decide
+
+open MidnightZK.C01.Args in
+/-- **The permutation identities of the identity model are the row rules.** For every field
+modulus `p`, environment, evaluations and challenges: if what the verifier read are the row
+values — for every column set `(z_s[i], z_s[(i+1) mod n])`, for every set but the last
+`z_s[(i+u) mod n]` (`permutation_product_last_eval`), for every permutation column its value and
+its σ value on row `i` — `x = ω^i` and `l_0, l_last, l_blind` are the row indicators, then the
+values of `Ids.permIds` (the permutation section of the list the verifier folds, in its order:
+first, last, chain…, product…) cast to `ZMod p` are exactly `permExpressionsRow … i`
+(`Model/C01/Arguments.lean`) with `chunk_len = degree − 2`, `δ = F::DELTA`. Together with
+`perm_argument_sound` this makes the row-level soundness statement a statement about the
+identity list validated against the real verifier. -/
+theorem perm_identity_is_row_rule {p : ℕ} [NeZero p] (f : Ids.Fld) (e : Ids.Env) (hp : e.p = p)
+    (permCommon : List ℕ) (sets : List Ids.PermSet) (ch : Ids.Challenges) (n bf i : ℕ) (ω : ZMod p)
+    (cols : List (List (ZMod p) × List (ZMod p))) (zs : List (List (ZMod p)))
+    (hx : (ch.x : ZMod p) = powN ω i)
+    (hsets : (sets.map fun s => ((s.eval : ZMod p), (s.next : ZMod p))) =
+      zs.map fun z => (z.getD i 0, z.getD ((i + 1) % n) 0))
+    (hlast : (sets.dropLast.map fun s => ((s.last.getD 0 : ℕ) : ZMod p)) =
+      zs.dropLast.map fun z => z.getD ((i + (n - (bf + 1))) % n) 0)
+    (hcols : (e.cs.permCols.map fun c => ((Ids.colEval e c : ℕ) : ZMod p)) = cols.map fun c => c.1.getD i 0)
+    (hperm : (permCommon.map fun v => ((v : ℕ) : ZMod p)) = cols.map fun c => c.2.getD i 0) :
+    (Ids.permIds f e permCommon sets (Ids.rowLagrange n bf i) ch).map (fun cv => ((cv.2 : ℕ) : ZMod p)) =
+      permExpressionsRow (e.cs.degree - 2) n bf (ch.beta : ZMod p) (ch.gamma : ZMod p)
+        (f.delta : ZMod p) ω cols zs i :=
+  Ids.permIds_eq_row f e hp permCommon sets ch n bf i ω cols zs hx hsets hlast hcols hperm
+
+open MidnightZK.C01.Args in
+/-- Non-vacuity of `perm_identity_is_row_rule`: `p = 17`, two permutation columns `a0, a1` at
+degree 3 (two sets), row `0` of `n = 4`, `bf = 1`: every hypothesis holds for concrete
+evaluations (`z_0 = (1, 5, …)`, `z_1 = (2, 7, …)`, `z_0` on row `u = 2` is `9`). -/
+example :
+    ((([⟨1, 5, some 9⟩, ⟨2, 7, none⟩] : List Ids.PermSet).map fun s => ((s.eval : ZMod 17), (s.next : ZMod 17))) =
+      ([[1, 5, 9, 0], [2, 7, 3, 0]] : List (List (ZMod 17))).map fun z => (z.getD 0 0, z.getD ((0 + 1) % 4) 0)) ∧
+    ((([⟨1, 5, some 9⟩, ⟨2, 7, none⟩] : List Ids.PermSet).dropLast.map fun s => ((s.last.getD 0 : ℕ) : ZMod 17)) =
+      ([[1, 5, 9, 0], [2, 7, 3, 0]] : List (List (ZMod 17))).dropLast.map fun z => z.getD ((0 + (4 - (1 + 1))) % 4) 0) ∧
+    (((coverCS.permCols.take 2).map fun c =>
+        ((Ids.colEval ⟨17, coverCS, [1], [3, 4], [], []⟩ c : ℕ) : ZMod 17)) =
+      ([([3, 0], [6, 0]), ([4, 0], [8, 0])] : List (List (ZMod 17) × List (ZMod 17))).map fun c => c.1.getD 0 0) ∧
+    ((1 : ℕ) : ZMod 17) = powN (3 : ZMod 17) 0 := by
+  refine ⟨by decide, by decide, by decide, by decide⟩
+
+/-! ## the field constants the identity model reads (regenerated from `fq.rs` on every run) -/
+
+/-- `ROOT_OF_UNITY` is a primitive `2^S`-th root of unity of the scalar field: its `2^(S−1)`-th
+power is `−1`. Hence `omega = ROOT_OF_UNITY^(2^(S−k))` (`Ids.omegaOf`) has order exactly `2^k`. -/
+theorem root_of_unity_primitive :
+    powMod Consts.rootOfUnity (2 ^ (Consts.twoAdicity - 1)) Consts.modulus = Consts.modulus - 1 ∧
+    powMod Consts.rootOfUnity (2 ^ Consts.twoAdicity) Consts.modulus = 1 := by
+  decide +kernel
+
+/-- `DELTA` has odd order `t = (r − 1)/2^S`: `DELTA^t = 1`, `2^S·t = r − 1`, `t` odd, `DELTA ≠ 1`.
+These are the facts from which the distinctness of the labels `δ^c·ω^i` (hypothesis `hid` of
+`perm_argument_sound`) follows in the real field (orders `2^k` and odd are coprime); that last
+group-theoretic step is not mechanised here. -/
+theorem delta_order :
+    powMod Consts.delta ((Consts.modulus - 1) / 2 ^ Consts.twoAdicity) Consts.modulus = 1 ∧
+    2 ^ Consts.twoAdicity * ((Consts.modulus - 1) / 2 ^ Consts.twoAdicity) = Consts.modulus - 1 ∧
+    ((Consts.modulus - 1) / 2 ^ Consts.twoAdicity) % 2 = 1 ∧ Consts.delta ≠ 1 := by
+  decide +kernel
 
 end MidnightZK.C02
